@@ -96,3 +96,33 @@ pub proof fn c13_inj_send(b: Seq<u8>, s1: Identifier, t1: Identifier, p1: Partit
     lemma_identifier_prefix_free(t1, enc_partitioning(p1) + enc_seq(w1), t2, enc_partitioning(p2) + enc_seq(w2));
     lemma_partitioning_prefix_free(p1, enc_seq(w1), p2, enc_seq(w2));
 }
+
+// ---- QUIC framing: the two ends are specified on the SAME frames ------------------------------------------------------------------------
+// what the client writes on a request stream ([C13.quic.request.frame]) is what the listener reads whole ([C13.quic.request.whole]) and
+// splits as the server's decoder expects (unit frame_gate: the 4-byte length prefix is skipped, then code = the next 4 bytes,
+// payload = the rest)
+// label: C13.quic.request.agree
+pub proof fn c13_quic_request_agree(code: u32, payload: Seq<u8>)
+    requires payload.len() + 4 <= u32::MAX,
+    ensures
+        quic_req_frame(code, payload).len() == 8 + payload.len(),
+        quic_req_frame(code, payload).len() >= INITIAL_BYTES_LENGTH,
+        quic_req_frame(code, payload).skip(INITIAL_BYTES_LENGTH as int) == le32(code) + payload,
+        un_le32(quic_req_frame(code, payload).subrange(0, 4)) == payload.len() + 4,
+{
+    lemma_le_facts();
+    let f = quic_req_frame(code, payload);
+    assert(f.skip(4) =~= le32(code) + payload);
+    assert(f.subrange(0, 4) =~= le32((payload.len() + 4) as u32));
+}
+// what the server's writers put on the stream ([C13.quic.response.frame*]: status ++ le32(|payload|) ++ payload on a stream nothing else
+// was written on) is a frame the client's reader is under contract for (its precondition `quic_response_stream`), with that status/body
+// label: C13.quic.response.agree
+pub proof fn c13_quic_response_agree(status_bytes: Seq<u8>, status: u32, payload: Seq<u8>)
+    requires status_bytes == le32(status), payload.len() <= u32::MAX,
+    ensures
+        Seq::<u8>::empty() + (status_bytes + le32(payload.len() as u32) + payload) == resp_frame(status, payload),
+        quic_response_stream(resp_frame(status, payload)),
+{
+    assert(Seq::<u8>::empty() + (status_bytes + le32(payload.len() as u32) + payload) =~= resp_frame(status, payload));
+}
